@@ -1,5 +1,6 @@
 //! Harnesses for fuel-core-sync: C28 (sync status) and C27 (batch partition).
 #![allow(clippy::all)]
+#![cfg_attr(kani, feature(allocator_api))]
 
 #[path = "../../common/vsrc.rs"]
 #[macro_use]
@@ -21,6 +22,8 @@ pub const REPLAY: &[(&str, fn(&mut vsrc::ReplaySrc))] = &[
     ("c27_step_blocks2_header", |s| c27::step::<_, 2, false, 2>(s)),
     ("c27_step_blocks1_block", |s| c27::step::<_, 2, true, 1>(s)),
     ("c27_step_blocks2_block", |s| c27::step::<_, 2, true, 2>(s)),
+    ("c27_whole_r4_n0", |s| c27::whole::<_, 4, 0, 0>(s)),
+    ("c27_whole_r4_n1", |s| c27::whole::<_, 4, 1, 0>(s)),
     ("c28_new", |s| c28::new_contract(s)),
     ("c28_commit", |s| c28::commit_step(s)),
     ("c28_observe", |s| c28::observe_step(s)),
